@@ -535,6 +535,10 @@ class DynDiGraph(nx.DiGraph):
             raise ValueError("The specified interaction extension is broader than "
                              "the ones already present for the given nodes.")
 
+        # a vanishing time that does not follow t describes an empty span: there is nothing to add
+        if e is not None and self.edge_removal and e <= t[0]:
+            return
+
         if u not in self._succ:
             self._succ[u] = self.adjlist_inner_dict_factory()
             self._pred[u] = self.adjlist_inner_dict_factory()
